@@ -1,7 +1,7 @@
 """Parent-side bookkeeping of mandoline under contract (C07, C08, C16): which boxes are handed to the workers."""
 import z3
 from pyvc.vals import *  # noqa
-from pyvc.task import Task
+from pyvc.task import Task, FragmentTask
 from pyvc.vc import veq
 from pyvc.loops import LoopSpec
 from spec.filt import Filt
@@ -174,3 +174,257 @@ def tasks(tier):
 
 def canaries(tier):
     return parent_canaries() + parent_canaries(2)
+
+
+# ---------------------------------------------------------------------------------------------------------------------
+# the interpolation kernels
+
+
+def _src(pattern):
+    import ast
+    return lambda s: pattern in ast.unparse(s).split("\n")[0]
+
+
+def _close(x, y):
+    d = x - y
+    ad = z3.If(d >= 0, d, -d)
+    ay = z3.If(y >= 0, y, -y)
+    return ad <= to_real(1e-8) + to_real(1e-5) * ay
+
+
+class InterpKernel(FragmentTask):
+    """reducemp_data_ortho, the interpolation statements: given the left / right sample planes L_i, R_i and their normal
+    coordinates NL, NR on the finest-level pixel grid, every pixel (X, Y) of every output array i is
+        (L_i (NR - pos) + R_i (pos - NL)) / (NR - NL)     where NL and NR differ (not np.isclose),
+        R_i                                               where they coincide,
+    the array is transposed (pixel (X, Y) at [Y, X]) and no pixel is left uninitialised (np.empty is modelled as unknown
+    values with an 'initialised' bit).  Pixel grid size, plane contents and position unbounded; number of fields a skeleton
+    parameter."""
+    reach = "U"
+    qual = MM + "reducemp_data_ortho"
+    first = staticmethod(_src("all_data = []"))
+    last = staticmethod(lambda s: s.__class__.__name__ == "For" and "self.nfidxs" in __import__("ast").unparse(s.iter) and "term1" in __import__("ast").unparse(s))
+
+    def __init__(self, prop, nf):
+        self.prop, self.nf = prop, nf
+        self.name = f"reducemp_data_ortho.interpolation[fields={nf}]"
+
+    def setup(self, ex):
+        ctx = ex.ctx
+        NX, NY = z3.Ints("NX NY")
+        ctx.assume(z3.And(NX >= 1, NY >= 1))
+        pos = z3.Real("pos")
+        F2 = lambda name: z3.Function(name, I, I, R)
+        L = [F2(f"L{i}") for i in range(self.nf)]
+        Rr = [F2(f"R{i}") for i in range(self.nf)]
+        NL, NR = F2("NL"), F2("NR")
+        arr = lambda f: NDArray([NX, NY], lambda ix, f=f: f(to_z3(ix[0]), to_z3(ix[1])), "f8")
+        left = {"data": [arr(f) for f in L], "normal": arr(NL)}
+        right = {"data": [arr(f) for f in Rr], "normal": arr(NR)}
+        from pyvc.libnp import np_empty
+        self.contracts = {MM + "limit_level_arr": lambda ex_, a, k: np_empty(ex_, [(NX, NY)], {})}
+        self_ = Record("amr_kitchen.mandoline.mandoline.Mandoline", nfidxs=self.nf, pos=pos, do_grid=False)
+        return {"frame": {"self": self_, "left": left, "right": right}, "NX": NX, "NY": NY, "pos": pos, "L": L, "R": Rr, "NL": NL, "NR": NR}
+
+    def post(self, ex, inp, out):
+        ctx = ex.ctx
+        ctx.oblige("raises-nothing", out.kind == "ret", "P", note=str(out.exc) if out.kind != "ret" else "")
+        if out.kind != "ret":
+            return
+        ad = out.value.get("all_data")
+        ok = isinstance(ad, list) and len(ad) == self.nf and all(isinstance(a, NDArray) and a.ndim == 2 for a in ad)
+        ctx.oblige("post.one-array-per-field", ok, "P")
+        if not ok:
+            return
+        NX, NY, pos, NL, NR = inp["NX"], inp["NY"], inp["pos"], inp["NL"], inp["NR"]
+        X, Y = ctx.fresh("X"), ctx.fresh("Y")
+        ctx.add_pc(z3.And(X >= 0, X < NX, Y >= 0, Y < NY))
+        for i, a in enumerate(ad):
+            ctx.oblige(f"post.field{i}.transposed-shape", zand(to_z3(a.shape[0]) == NY, to_z3(a.shape[1]) == NX), "P")
+            e, init = a.snapshot()
+            nl, nr, l, r = NL(X, Y), NR(X, Y), inp["L"][i](X, Y), inp["R"][i](X, Y)
+            want = z3.If(z3.Not(_close(nl, nr)), (l * (nr - pos) + r * (pos - nl)) / (nr - nl), r)
+            ctx.oblige(f"post.field{i}.every-pixel-is-the-interpolation-of-its-two-samples", to_z3(e((Y, X))) == want, "P")
+            ctx.oblige(f"post.field{i}.no-pixel-left-uninitialised", True if init is None else to_z3(init((Y, X))), "P")
+
+
+class InterpKernelByLevel(InterpKernel):
+    """interpolate_bylevel, the per-level interpolation statements (same formula, one set of planes per level, not
+    transposed): every pixel of every level array is the interpolation of THAT level's two samples, none uninitialised.
+    Levels are a skeleton parameter (the loop is unrolled); the NaN bookkeeping before it is covered by the run-time layer."""
+    qual = MM + "interpolate_bylevel"
+    last = staticmethod(lambda s: s.__class__.__name__ == "For" and "limit_level" in __import__("ast").unparse(s.iter) and "term1" in __import__("ast").unparse(s))
+
+    def __init__(self, prop, nf, nlev):
+        self.prop, self.nf, self.nlev = prop, nf, nlev
+        self.name = f"interpolate_bylevel.interpolation[fields={nf},levels={nlev}]"
+
+    def setup(self, ex):
+        ctx = ex.ctx
+        NX, NY = z3.Ints("NX NY")
+        ctx.assume(z3.And(NX >= 1, NY >= 1))
+        pos = z3.Real("pos")
+        F3 = lambda name: z3.Function(name, I, I, I, R)
+        L = [F3(f"L{i}") for i in range(self.nf)]
+        Rr = [F3(f"R{i}") for i in range(self.nf)]
+        NL, NR = F3("NL"), F3("NR")
+        arr = lambda f, lv: NDArray([NX, NY], lambda ix, f=f, lv=lv: f(lv, to_z3(ix[0]), to_z3(ix[1])), "f8")
+        left = [{"data": [arr(f, lv) for f in L], "normal": arr(NL, lv)} for lv in range(self.nlev)]
+        right = [{"data": [arr(f, lv) for f in Rr], "normal": arr(NR, lv)} for lv in range(self.nlev)]
+        from pyvc.libnp import np_empty
+        self.contracts = {MM + "limit_level_arr": lambda ex_, a, k: np_empty(ex_, [(NX, NY)], {})}
+        self_ = Record("amr_kitchen.mandoline.mandoline.Mandoline", nfidxs=self.nf, pos=pos, limit_level=self.nlev - 1)
+        return {"frame": {"self": self_, "left": left, "right": right}, "NX": NX, "NY": NY, "pos": pos, "L": L, "R": Rr, "NL": NL, "NR": NR}
+
+    def post(self, ex, inp, out):
+        ctx = ex.ctx
+        ctx.oblige("raises-nothing", out.kind == "ret", "P", note=str(out.exc) if out.kind != "ret" else "")
+        if out.kind != "ret":
+            return
+        ad = out.value.get("all_data")
+        ok = isinstance(ad, list) and len(ad) == self.nlev and all(isinstance(l, list) and len(l) == self.nf and
+                                                                   all(isinstance(a, NDArray) and a.ndim == 2 for a in l) for l in ad)
+        ctx.oblige("post.one-array-per-level-and-field", ok, "P")
+        if not ok:
+            return
+        NX, NY, pos, NL, NR = inp["NX"], inp["NY"], inp["pos"], inp["NL"], inp["NR"]
+        X, Y = ctx.fresh("X"), ctx.fresh("Y")
+        ctx.add_pc(z3.And(X >= 0, X < NX, Y >= 0, Y < NY))
+        for lv in range(self.nlev):
+            for i, a in enumerate(ad[lv]):
+                ctx.oblige(f"post.level{lv}.field{i}.shape", zand(to_z3(a.shape[0]) == NX, to_z3(a.shape[1]) == NY), "P")
+                e, init = a.snapshot()
+                nl, nr, l, r = NL(lv, X, Y), NR(lv, X, Y), inp["L"][i](lv, X, Y), inp["R"][i](lv, X, Y)
+                want = z3.If(z3.Not(_close(nl, nr)), (l * (nr - pos) + r * (pos - nl)) / (nr - nl), r)
+                ctx.oblige(f"post.level{lv}.field{i}.every-pixel-is-the-interpolation-of-that-level's-samples", to_z3(e((X, Y))) == want, "P")
+                ctx.oblige(f"post.level{lv}.field{i}.no-pixel-left-uninitialised", True if init is None else to_z3(init((X, Y))), "P")
+
+
+class PaintOutput(FragmentTask):
+    """reducemp_data_ortho, the body of the level loop for ONE worker output (the statements computing the first / last
+    cell-centre coordinate of the level and the loop over the level's outputs, here a one-element list): the left (right)
+    plane of the output is written into the left (right) arrays exactly on the output's footprint, with its normal
+    coordinate, and nowhere else; a left plane lying on the LAST cell centre of the level (geo_high - dx/2: no cell beyond it
+    inside the domain) is also used as the right plane, and dually a right plane on the FIRST centre (geo_low + dx/2).
+    Pixel-grid size, footprint, plane contents, previous array contents unbounded; one field; which planes the output has is
+    a task parameter."""
+    reach = "U"
+    qual = MM + "reducemp_data_ortho"
+    first = staticmethod(FragmentTask.assigns("first_grid_pt"))
+    last = staticmethod(lambda s: s.__class__.__name__ == "For" and "plane_data[Lv]" in __import__("ast").unparse(s.iter))
+    unordered = True
+
+    def __init__(self, prop, has_left, has_right, cn=1):
+        self.prop, self.hl, self.hr, self.cn = prop, has_left, has_right, cn
+        self.name = f"reducemp_data_ortho.paint-one-output[left={has_left},right={has_right}]"
+
+    def setup(self, ex):
+        ctx = ex.ctx
+        cn = self.cn
+        NX, NY = z3.Ints("NX NY")
+        xa, xo, ya, yo = z3.Ints("xa xo ya yo")
+        ctx.assume(z3.And(NX >= 1, NY >= 1, 0 <= xa, xa <= xo, xo <= NX, 0 <= ya, ya <= yo, yo <= NY))
+        L, Lv = z3.Ints("L Lv")
+        ctx.assume(z3.And(Lv >= 0, Lv <= L))
+        DX = z3.Function("DX", I, I, R)
+        glo = [z3.Real(f"glo{d}") for d in range(3)]
+        ghi = [z3.Real(f"ghi{d}") for d in range(3)]
+        F2 = lambda name: z3.Function(name, I, I, R)
+        B2 = lambda name: z3.Function(name, I, I, z3.BoolSort())
+        old = {k: F2(k) for k in ("oLd", "oLn", "oRd", "oRn")}
+        oldi = {k: B2(k + "_init") for k in ("oLd", "oLn", "oRd", "oRn")}
+        arr = lambda k: NDArray([NX, NY], lambda ix, k=k: old[k](to_z3(ix[0]), to_z3(ix[1])), "f8",
+                                init=lambda ix, k=k: oldi[k](to_z3(ix[0]), to_z3(ix[1])))
+        left = {"data": [arr("oLd")], "normal": arr("oLn")}
+        right = {"data": [arr("oRd")], "normal": arr("oRn")}
+        PL, PR = F2("PLANE_L"), F2("PLANE_R")
+        nl, nr = z3.Real("normal_l"), z3.Real("normal_r")
+        plane = lambda f: NDArray([xo - xa, yo - ya], lambda ix, f=f: f(to_z3(ix[0]), to_z3(ix[1])), "f8")
+        mk = lambda f, n: {"sx": [xa, xo], "sy": [ya, yo], "data": [plane(f)], "normal": n, "level": Lv}
+        output = [mk(PL, nl) if self.hl else None, mk(PR, nr) if self.hr else None, Opaque("hdr", "obj"), z3.Int("bidx")]
+        self_ = Record("amr_kitchen.mandoline.mandoline.Mandoline", cn=cn, geo_low=list(glo), geo_high=list(ghi),
+                       dx=SymSeq(L + 1, lambda l: [DX(to_z3(l), d) for d in range(3)]), do_grid=False, limit_level=L, nfidxs=1)
+        plane_data = SymSeq(L + 1, lambda l: [output])
+        frame = {"self": self_, "Lv": Lv, "plane_data": plane_data, "left": left, "right": right, "grid_level": None}
+        return {"frame": frame, "NX": NX, "NY": NY, "fp": (xa, xo, ya, yo), "old": old, "oldi": oldi, "PL": PL, "PR": PR, "nl": nl, "nr": nr,
+                "first": glo[cn] + DX(Lv, cn) / 2, "last": ghi[cn] - DX(Lv, cn) / 2}
+
+    def post(self, ex, inp, out):
+        ctx = ex.ctx
+        ctx.oblige("raises-nothing", out.kind == "ret", "P", note=str(out.exc) if out.kind != "ret" else "")
+        if out.kind != "ret":
+            return
+        v = out.value
+        NX, NY = inp["NX"], inp["NY"]
+        xa, xo, ya, yo = inp["fp"]
+        X, Y = ctx.fresh("X"), ctx.fresh("Y")
+        ctx.add_pc(z3.And(X >= 0, X < NX, Y >= 0, Y < NY))
+        inside = z3.And(xa <= X, X < xo, ya <= Y, Y < yo)
+        old, oldi, nl, nr = inp["old"], inp["oldi"], inp["nl"], inp["nr"]
+        pl, pr = inp["PL"](X - xa, Y - ya), inp["PR"](X - xa, Y - ya)
+        # what the four arrays must hold at (X, Y): start from the old contents, apply the left plane, then the right one
+        st = {k: (old[k](X, Y), oldi[k](X, Y)) for k in old}
+
+        def put(key, val):
+            st[key] = (z3.If(inside, val, st[key][0]), z3.Or(inside, st[key][1]))
+        if self.hl:
+            put("oLd", pl)
+            put("oLn", nl)
+            on_last = _close(nl, inp["last"])
+            st["oRd"] = (z3.If(z3.And(inside, on_last), pl, st["oRd"][0]), z3.Or(z3.And(inside, on_last), st["oRd"][1]))
+            st["oRn"] = (z3.If(z3.And(inside, on_last), nl, st["oRn"][0]), z3.Or(z3.And(inside, on_last), st["oRn"][1]))
+        if self.hr:
+            put("oRd", pr)
+            put("oRn", nr)
+            on_first = _close(nr, inp["first"])
+            st["oLd"] = (z3.If(z3.And(inside, on_first), pr, st["oLd"][0]), z3.Or(z3.And(inside, on_first), st["oLd"][1]))
+            st["oLn"] = (z3.If(z3.And(inside, on_first), nr, st["oLn"][0]), z3.Or(z3.And(inside, on_first), st["oLn"][1]))
+        got = {"oLd": v["left"]["data"][0], "oLn": v["left"]["normal"], "oRd": v["right"]["data"][0], "oRn": v["right"]["normal"]}
+        names = {"oLd": "left-data", "oLn": "left-normal", "oRd": "right-data", "oRn": "right-normal"}
+        for k, a in got.items():
+            e, init = a.snapshot()
+            ini = True if init is None else init((X, Y))
+            ctx.oblige(f"post.{names[k]}.initialised-exactly-where-painted-or-before", to_z3(ini) == st[k][1], "P")
+            ctx.oblige(f"post.{names[k]}.value", z3.Implies(st[k][1], to_z3(e((X, Y))) == st[k][0]), "P")
+
+
+def kernel_tasks2(prop, which=("ortho",)):
+    out = []
+    if "ortho" in which:
+        out += [InterpKernel(prop, 1), InterpKernel(prop, 2)]
+    if "bylevel" in which:
+        out += [InterpKernelByLevel(prop, 1, 2), InterpKernelByLevel(prop, 2, 1)]
+    if "paint" in which:
+        out += [PaintOutput(prop, True, False), PaintOutput(prop, False, True), PaintOutput(prop, True, True)]
+    return out
+
+
+def kernel_canaries2(which=("ortho",)):
+    f = "amr_kitchen/mandoline/mandoline.py"
+    if "bylevel" in which:
+        return [("interpolate_bylevel: level 0 planes used on every level",
+                 [(f, "                term3 = right[lv]['normal'][bint] - left[lv]['normal'][bint]", "                term3 = right[0]['normal'][bint] - left[0]['normal'][bint]")],
+                 ["interpolate_bylevel.interpolation[fields=1,levels=2]"])]
+    if "paint" in which:
+        return [("reducemp: first cell centre of the level taken without the domain origin",
+                 [(f, "            first_grid_pt = self.geo_low[self.cn] + self.dx[Lv][self.cn]/2", "            first_grid_pt = self.dx[Lv][self.cn]/2")],
+                 ["reducemp_data_ortho.paint-one-output[left=False,right=True]"]),
+                ("reducemp: right plane written with x and y footprints exchanged",
+                 [(f, "                    for i, arr in enumerate(left['data']):\n                        right['data'][i][xa:xo, ya:yo] = out['data'][i]\n                    right['normal'][xa:xo, ya:yo] = out['normal']",
+                   "                    for i, arr in enumerate(left['data']):\n                        right['data'][i][ya:yo, xa:xo] = out['data'][i]\n                    right['normal'][xa:xo, ya:yo] = out['normal']")],
+                 ["reducemp_data_ortho.paint-one-output[left=False,right=True]"])]
+    return [("reducemp: interpolation weights swapped",
+             [(f, "            term1 = left['data'][i][bint] * (right['normal'][bint] - self.pos) ", "            term1 = left['data'][i][bint] * (self.pos - left['normal'][bint]) "),
+              (f, "            term2 = right['data'][i][bint] * (self.pos - left['normal'][bint])", "            term2 = right['data'][i][bint] * (right['normal'][bint] - self.pos)")],
+             ["reducemp_data_ortho.interpolation[fields=1]"]),
+            ("reducemp: coinciding planes left unfilled",
+             [(f, "            data[~bint] = right['data'][i][~bint]\n            # For some reason", "            # For some reason")],
+             ["reducemp_data_ortho.interpolation[fields=1]"])]
+
+
+def tasks(tier):
+    return parent_tasks("CXX") + parent_tasks("CXX", 2) + kernel_tasks2("CXX", ("ortho", "bylevel", "paint"))
+
+
+def canaries(tier):
+    return parent_canaries() + parent_canaries(2) + kernel_canaries2() + kernel_canaries2(("bylevel",)) + kernel_canaries2(("paint",))
